@@ -108,16 +108,22 @@ pub fn closure(src: &AnyPoly, res: &AnyPoly, x: f64) -> Result<(), String> {
 fn same_f(a: f64, b: f64) -> bool {
     a.to_bits() == b.to_bits() || (a.is_nan() && b.is_nan())
 }
+/// coefficients of two routes to the same derivative / integral: each is within 2 roundings of the exact `c * p` /
+/// `c / (p + 1)` (what tools/props/c03.py / c04.py demand of the route that is observed), so they differ by at most 4;
+/// exponents and structure are compared exactly
+fn same_c(a: f64, b: f64) -> bool {
+    same_f(a, b) || a == b || (a.is_finite() && b.is_finite() && (a - b).abs() <= 2f64.powi(-51) * a.abs().max(b.abs()))
+}
 pub fn same_terms(a: &[Term], b: &[Term]) -> bool {
     a.len() == b.len()
         && a.iter().zip(b.iter()).all(|(s, t)| {
-            same_f(s.coefficient, t.coefficient)
+            same_c(s.coefficient, t.coefficient)
                 && s.variables.len() == t.variables.len()
                 && s.variables.iter().zip(t.variables.iter()).all(|(u, v)| u.0 == v.0 && same_f(u.1, v.1))
         })
 }
 pub fn same_coeffs(a: &[f64], b: &[f64]) -> bool {
-    a.len() == b.len() && a.iter().zip(b.iter()).all(|(x, y)| same_f(*x, *y))
+    a.len() == b.len() && a.iter().zip(b.iter()).all(|(x, y)| same_c(*x, *y))
 }
 
 /// the free functions `simple_derivative` / `partial_derivative` (owned and borrowed variable name) and the trait
